@@ -32,7 +32,7 @@ func runC19(r *Run) {
 	}
 	// ---- CheckAddTx
 	{
-		a := w.A(add)
+		a := w.AU(add)
 		var call ssa.Instruction
 		a.Instrs(func(in ssa.Instruction) {
 			if c, ok := in.(*ssa.Call); ok && a.sh.Of(c.Call.Value).String() == "p0.addTx" {
@@ -181,7 +181,7 @@ func runC19(r *Run) {
 	}
 	// ---- C19.4
 	if k := w.Fn("gtxbuf.Buffer.kernel"); k != nil {
-		a := w.A(k)
+		a := w.AU(k)
 		var ws *ssa.Alloc
 		a.Instrs(func(in ssa.Instruction) {
 			if al, ok := in.(*ssa.Alloc); ok && strings.Contains(TypeName(al.Type()), "workingState") {
@@ -212,7 +212,7 @@ func runC19(r *Run) {
 		r.Check(ok && goCalls == 0, "C19.4", "gtxbuf.Buffer.kernel(confinement)", w.Pos(k.Pos()), "the working state is a local whose address goes only to synchronous calls; the kernel starts no goroutine")
 	}
 	if n := w.Fn("gtxbuf.New"); n != nil {
-		a := w.A(n)
+		a := w.AU(n)
 		okReq := true
 		cnt := 0
 		a.Instrs(func(in ssa.Instruction) {
@@ -234,7 +234,7 @@ func runC19(r *Run) {
 			r.Fail("C19.4", name, "", "not found")
 			continue
 		}
-		a := w.A(fn)
+		a := w.AU(fn)
 		ok := false
 		a.Instrs(func(in ssa.Instruction) {
 			if mc, isMC := in.(*ssa.MakeChan); isMC && a.sh.Of(mc.Size).String() == "1" {
